@@ -186,3 +186,23 @@ Theorem C17_taint_single_call : forall llm render prompt_template data_env h m t
   programs_clean tr /\ exists ui bi, single_call_post (llm 0%nat) = Ok (ui, bi, txt m).
 Proof. exact turn_single_call_taint. Qed.
 Print Assumptions C17_taint_single_call.
+
+(* multi-turn: with the number of rendering passes of taskmanager._render_string AS IN THE SOURCE
+   (prompt_render_passes, read by the translator), over any number of turns and whatever the LLM
+   and the user wrote in earlier turns, every text interpreted as a template is configuration:
+   the history is inserted as data and never interpreted *)
+Theorem C17_taint_multi_turn : forall llm render pt denv users k0 h h' tr,
+  conversation llm render pt denv prompt_render_passes k0 h users = Ok (h', tr) -> programs_clean tr.
+Proof.
+  exact (fun llm render pt denv users k0 h h' tr =>
+           conversation_taint llm render pt denv prompt_render_passes users k0 h h' tr (le_n 1)).
+Qed.
+Print Assumptions C17_taint_multi_turn.
+
+(* ... a second pass over the rendered prompt interprets LLM text of an earlier turn *)
+Theorem C17_taint_two_passes_refuted :
+  exists llm users h' tr e t,
+    conversation llm (fun t _ => t) (fun _ => s2t "tpl") (fun _ t => t) 2 0 [] users = Ok (h', tr) /\
+    In (e, t) tr /\ e = Render /\ tg t = FromLLM.
+Proof. exact conversation_two_passes_refuted. Qed.
+Print Assumptions C17_taint_two_passes_refuted.
